@@ -11,6 +11,9 @@ def need : List Entry → Nat → Nat
   | [], _ => 0
   | e :: es, t => if sumSizes (e :: es) ≤ t then 0 else need es t + 1
 
+theorem need_cons (e : Entry) (es : List Entry) (t : Nat) :
+    need (e :: es) t = if e.size + sumSizes es ≤ t then 0 else need es t + 1 := rfl
+
 theorem eject_spec (l : List Entry) (cur target : Nat) (h : cur = sumSizes l) :
     (eject l cur target).diverged = false ∧
     (eject l cur target).cur = sumSizes (eject l cur target).rest ∧
